@@ -561,6 +561,15 @@ func (s *sim) event(kind int) {
 		c.Fault("stop_graceful")
 		c.Log("stop", "m%d", m.Idx)
 		// calls in flight on that process end with whatever it answers
+		nn0 := m.Parts[0]
+		defer func() {
+			// ground truth bookkeeping only: what the stopping process had applied
+			if nn0 != nil {
+				if a := nn0.Node.GetAppliedIndex(); a > s.maxAppliedEver {
+					s.maxAppliedEver = a
+				}
+			}
+		}()
 		if !cl.StopGraceful(m) {
 			c.Violate(orProp(c, "C06"), "graceful-stop-hangs", "", "graceful stop of machine %d did not finish within two simulated minutes", m.Idx)
 		}
